@@ -373,4 +373,9 @@ PROPS['C20'] = sem_prop('Semantic-after probes fire exactly once after the instr
     'br_table with two targets, targets in loops) and F15 (function label).',
     'Lean 4 proof (constructs: simulation; branches: simulation up to flag locals with an inductive invariant, on the stated scope) + kernel-decided counterexamples outside the scope + differential correspondence and execution in the Lean interpreter', with_lower=True)
 
+# the code-skeleton ties (translator/scan_resolver.py, translator/scan_api.py) are regenerated for these on every run
+for _p in ['C06', 'C07', 'C09', 'C10', 'C11', 'C12', 'C13', 'C14', 'C17', 'C18', 'C19', 'C20', 'C21', 'C22', 'C25', 'C26', 'C29', 'C30']:
+    PROPS[_p]['translator'] = True
+    PROPS[_p]['trusted'] = list(PROPS[_p]['trusted']) + [
+        'translator/scan_resolver.py / translator/scan_api.py (regular expressions: control keywords, calls, Operator:: names, mode names and assignments of the functions the model transcribes, in source order); they tie the *shape* of the code to the reviewed copy the model was written against, not its expressions - a changed operand or comparison inside an unchanged skeleton is left to the correspondence check']
 ALL_IDS = ['C%02d' % i for i in range(1, 31)]
